@@ -9,7 +9,7 @@ def J(scn, bound, deadline=60, **kw):
 
 PLANS = {
     "C01": {
-        "quick": [J("pubflow", "p=1,f=1,s=1", 60)],
+        "quick": [J("pubflow", "p=1,f=1,s=1", 30), J("pubflow", "f=2", 60)],
         "thorough": [J("pubflow", "p=2,f=2,s=2", 900)],
     },
 }
@@ -20,28 +20,28 @@ PLANS["C02"] = {
 }
 
 PLANS["C03"] = {
-    "quick": [J("qos2out", "f=2,c=1", 90)],
+    "quick": [J("qos2out", "f=1,c=1", 60), J("qos2out", "f=2", 60)],
     "thorough": [J("qos2out", "f=3,c=2,p=1", 900)],
 }
 PLANS["C05"] = {
-    "quick": [J("puborder", "p=2,f=1,s=1", 90)],
+    "quick": [J("puborder", "p=1,f=1,s=1", 90)],
     "thorough": [J("puborder", "p=3,f=2,s=2", 900)],
 }
 
 PLANS["C08"] = {
-    "quick": [J("writers", "p=1,f=1", 90)],
+    "quick": [J("writers", "p=1,f=1", 30), J("writers", "f=2", 60)],
     "thorough": [J("writers", "p=2,f=2,s=1", 900)],
 }
 PLANS["C10"] = {
-    "quick": [J("wedge", "p=1,f=2,s=1", 90)],
+    "quick": [J("wedge", "p=1,f=1", 45), J("wedge", "f=2", 45)],
     "thorough": [J("wedge", "p=2,f=3,s=2", 900)],
 }
 PLANS["C11"] = {
-    "quick": [J("reqresp", "p=2,f=1,s=1,sel=1", 90)],
+    "quick": [J("reqresp", "p=1,f=1,sel=1", 60), J("reqresp", "f=1,s=2", 40)],
     "thorough": [J("reqresp", "p=3,f=2,s=2,sel=1", 900)],
 }
 PLANS["C12"] = {
-    "quick": [J("shutdown1", "p=1,f=1,s=1", 40), J("shutdown2", "p=1,f=1,s=1,sel=1", 50)],
+    "quick": [J("shutdown1", "p=1,f=1,s=1", 60), J("shutdown2", "p=1,f=1,sel=1", 60)],
     "thorough": [J("shutdown1", "p=2,f=1,s=2", 300), J("shutdown2", "p=2,f=1,s=2,sel=1", 300), J("shutdown3", "p=2,f=1,s=2,sel=1", 300)],
 }
 
@@ -50,7 +50,7 @@ PLANS["C04"] = {
     "thorough": [J("qos2in", "f=3,c=2", 900)],
 }
 PLANS["C06"] = {
-    "quick": [J("inbound32", "f=1", 30), J("inbound32skip", "f=1", 30), J("inbound64", "f=1", 30)],
+    "quick": [J("inbound32", "f=2", 60), J("inbound32skip", "f=2", 60), J("inbound64", "f=1", 30)],
     "thorough": [J("inbound32", "f=2", 600), J("inbound32skip", "f=2", 600), J("inbound64", "f=2", 600)],
 }
 PLANS["C07"] = {
@@ -59,7 +59,7 @@ PLANS["C07"] = {
 }
 
 PLANS["C17"] = {
-    "quick": [J("window21", "p=1,f=1,c=1", 30), J("window21wrap", "p=1,f=1,c=1", 30), J("window10", "p=1,f=1", 15), J("window3neg", "p=1,f=1", 15)],
+    "quick": [J("window21", "p=1,f=1", 30), J("window21wrap", "c=1,f=1", 60), J("window10", "p=1,f=1", 15), J("window3neg", "p=1,f=1", 15)],
     "thorough": [J("window21", "p=2,f=2,c=1,s=1", 400), J("window21wrap", "p=2,f=2,c=1,s=1", 400), J("window10", "p=2,f=2,c=1", 200), J("window3neg", "p=2,f=2,c=1", 200)],
 }
 PLANS["C18"] = {
@@ -94,6 +94,11 @@ PLANS["C14"] = {
 PLANS["C16"] = {
     "quick": [J("damage1", "c=1,s=1", 90)],
     "thorough": [J("damage1", "c=1,s=2,p=1", 600), J("damage2", "c=1,f=1,s=1", 900)],
+}
+
+PLANS["C19"] = {
+    "quick": [J("c19-stops", "quick", 120, test="TestE3"), J("fsconc1", "p=3,s=3", 40), J("fsconc2", "p=3,s=3", 40)],
+    "thorough": [J("c19-stops", "thorough", 900, test="TestE3"), J("fsconc1", "p=6,s=6", 600), J("fsconc2", "p=6,s=6", 600)],
 }
 
 LEVELS = {}
